@@ -418,8 +418,8 @@ def run_query_(o, tier, backend):
     cmd = ['cbmc', fam.gb, '--function', o.entry, '--unwind', str(unwind)] + BASE_FLAGS
     for u in list(fam.unwindset) + list(o.kw.get('unwindset', ())):
         cmd += ['--unwindset', u]
-    if 'libc_models.c' in fam.stubs:
-        cmd += ['--unwindset', 'memmove.0:162', '--unwindset', 'memmove.1:162']
+    if 'ptr_models.c' in fam.stubs:
+        cmd += ['--unwindset', 'verif_copy.0:22', '--unwindset', 'verif_copy.1:22', '--unwindset', 'verif_copy.2:162', '--unwindset', 'verif_copy.3:162']
     spec = list(fam.loopspec) + list(o.kw.get('loopspec', ()))
     if spec:
         cmd += loopspec_args(fam, spec)
